@@ -88,7 +88,7 @@ func run(t vt.TB, pcts []float64, mask gostatsd.TimerSubtypes, limit uint32, tag
 	if countPoints(batches) == 0 {
 		// a timer without values only exists as a persisted series: prime it, flush, reset
 		mm := gostatsd.NewMetricMap(false)
-		mm.Receive(&gostatsd.Metric{Name: "t", Type: gostatsd.TIMER, Value: 1, Rate: 1, Tags: tags.Copy(), Timestamp: 1})
+		mm.Receive(&gostatsd.Metric{Name: "t", Type: gostatsd.TIMER, Value: 7, Rate: 0.5, Tags: tags.Copy(), Timestamp: 1})
 		agg.ReceiveMap(mm)
 		agg.Flush(interval)
 		agg.Reset()
@@ -274,6 +274,10 @@ func checkStats(t vt.TB, tm gostatsd.Timer, pts []point, pcts []float64, mask go
 	if n == 0 {
 		if tm.Count != 0 || tm.PerSecond != 0 || len(tm.Percentiles) != 0 {
 			vt.Fail(t, "C08:empty-timer", "timer without values reports count=%d persec=%v percentiles=%v", tm.Count, tm.PerSecond, tm.Percentiles)
+		}
+		// nothing of the previous interval (whose single value was 7) may be left in the report of an interval without values
+		if tm.Min != 0 || tm.Max != 0 || tm.Sum != 0 || tm.SumSquares != 0 || tm.Mean != 0 || tm.Median != 0 || tm.StdDev != 0 || tm.SampledCount != 0 || len(tm.Values) != 0 {
+			vt.Fail(t, "C08:empty-timer", "timer without values in this interval reports min=%v max=%v sum=%v sum_squares=%v mean=%v median=%v std=%v sampled=%v values=%v (the interval before held the single value 7)", tm.Min, tm.Max, tm.Sum, tm.SumSquares, tm.Mean, tm.Median, tm.StdDev, tm.SampledCount, tm.Values)
 		}
 		return
 	}
